@@ -186,7 +186,7 @@ func project(rep *idp.Reply) Obs {
 
 func Run(dir, tier string, seed int64) error {
 	run := coqgen.NewRun(dir, "C12", tier, seed)
-	run.Imports = "From Saml Require Import Base.Bytes Gen.Pure Idp.Sso Idp.Callback Core.Attrs Idp.AttrQuery Corr.AttrQueryCorr."
+	run.Imports = "From Saml Require Import Base.Bytes Gen.Pure Idp.Sso Idp.Callback Core.Attrs Idp.AttrQuery Xml.Unmarshal Corr.AttrQueryCorr."
 	run.CaseType = "aq_case"
 	run.BadFn = "aq_bad"
 	run.PerShard = 150
@@ -335,8 +335,8 @@ func Run(dir, tier string, seed int64) error {
 		}
 		obs := fmt.Sprintf("{| ao_kind := %s; ao_irt := %s; ao_issuer := %s; ao_audience := %s; ao_nameid := %s; ao_attrs := %s |}",
 			coqgen.Z(int64(o.Kind)), coqgen.Bytes(o.IRT), coqgen.Bytes(o.Issuer), coqgen.Bytes(o.Audience), coqgen.Bytes(o.NameID), coqgen.List(as))
-		coq := fmt.Sprintf("{| ac_id := %s; ac_dec := %s; ac_sp := %s; ac_verify := false; ac_locs := %s; ac_user := %s; ac_cert1 := %s; ac_cert2 := %s; ac_sign := %s; ac_eid := %s; ac_obs := %s |}",
-			coqgen.Z(int64(id)), coqDec, coqSP, coqgen.BytesList([]string{attrLoc}), coqUsr, coqgen.Bool(cert1), coqgen.Bool(cert2), coqgen.Bool(signOK), coqgen.Bytes(issuer+"/metadata"), obs)
+		coq := fmt.Sprintf("{| ac_id := %s; ac_dec := %s; ac_sp := %s; ac_verify := false; ac_locs := %s; ac_user := %s; ac_cert1 := %s; ac_cert2 := %s; ac_sign := %s; ac_eid := %s; ac_obs := %s; ac_doc := %s |}",
+			coqgen.Z(int64(id)), coqDec, coqSP, coqgen.BytesList([]string{attrLoc}), coqUsr, coqgen.Bool(cert1), coqgen.Bool(cert2), coqgen.Bool(signOK), coqgen.Bytes(issuer+"/metadata"), obs, idp.DocTreeTerm([]byte(body)))
 		desc := map[string]interface{}{"scenario": s, "body": body, "observed": o, "reply_kind": rep.Kind, "code": rep.Code, "panic": rep.Panic}
 		run.AddCase(id, coq, desc)
 		run.Count("mut=" + s.Mut)
